@@ -1,5 +1,7 @@
 (* C14, the import clause against Spec.C14Spec: soundness (no import names a type its module does not
-   define, none names the file itself) and completeness on dom_C14, for every workspace and every order oracle. *)
+   define, none names the file itself) and completeness on dom_C14 (named references and references covered by
+   a glob import), for every workspace and every order oracle; the pairs used_imports returns are a function of
+   the SET of imports it is given (no iteration order of the per-crate import set reaches them). *)
 From Coq Require Import List Bool Lia ZifyBool ZifyN Permutation String.
 From TS Require Import Model.Str Model.Outcome Model.Unicode Model.Syntax Model.Attrs Model.Rename Model.Types Model.Parse
                        Model.Reconcile Model.Collect Model.Lang.Common Model.MultiFile.
@@ -20,7 +22,7 @@ Lemma used_imports_step_mono ct own m imp k n :
 Proof.
   intros H. unfold used_imports_step. destruct (str_eqb (base_crate imp) own); [exact H|].
   destruct (crate_types_get ct (base_crate imp)) as [names|]; [|now apply import_fallback_mono].
-  destruct (str_eqb (type_name imp) GLOB); [now apply scoped_modify_extend_mono|].
+  destruct (str_eqb (type_name imp) GLOB); [now apply scoped_extend_mono|].
   destruct (mem_str (type_name imp) names); [apply scoped_add_pairs; now right|now apply import_fallback_mono].
 Qed.
 Lemma fold_step_mono ct own imports k n : forall m,
@@ -36,6 +38,60 @@ Proof.
   unfold used_imports_step at 1. cbn [base_crate type_name].
   apply str_eqb_neq in Hne. rewrite Hne, G. apply str_eqb_neq in Hg. rewrite Hg.
   apply mem_str_in in Hn. rewrite Hn. apply scoped_add_pairs. now left.
+Qed.
+
+(* a `*` import of crate d brings in every name of d's type table, wherever it comes in the iteration and whether
+   or not another import of d is present (mod.rs:473 creates the entry) *)
+Lemma used_imports_glob_complete ct own imports d n names :
+  In {| base_crate := d; type_name := GLOB |} imports -> d <> own -> crate_types_get ct d = Some names -> In n names ->
+  In (d, n) (scoped_pairs (used_imports ct own imports)).
+Proof.
+  intros Hin Hne G Hn. rewrite used_imports_fold. apply in_split in Hin as (l1 & l2 & ->).
+  rewrite fold_left_app. cbn [fold_left]. apply fold_step_mono.
+  unfold used_imports_step at 1. cbn [base_crate type_name].
+  apply str_eqb_neq in Hne. rewrite Hne, G, str_eqb_refl. apply scoped_extend_pairs. right. split; [reflexivity|exact Hn].
+Qed.
+
+(* ---------- the result is a function of the set of imports ---------- *)
+Lemma import_fallback_pairs ct own name m k n :
+  In (k, n) (scoped_pairs (import_fallback ct own name m)) <->
+  In (k, n) (scoped_pairs m) \/ In (k, n) (scoped_pairs (import_fallback ct own name [])).
+Proof.
+  unfold import_fallback. destruct (find _ ct) as [kv|]; [|cbn; tauto].
+  rewrite !scoped_add_pairs. cbn. tauto.
+Qed.
+(* one iteration adds to the accumulator exactly what it would add to the empty map *)
+Lemma used_imports_step_pairs ct own m imp k n :
+  In (k, n) (scoped_pairs (used_imports_step ct own m imp)) <->
+  In (k, n) (scoped_pairs m) \/ In (k, n) (scoped_pairs (used_imports_step ct own [] imp)).
+Proof.
+  unfold used_imports_step. destruct (str_eqb (base_crate imp) own); [cbn; tauto|].
+  destruct (crate_types_get ct (base_crate imp)) as [names|]; [|apply import_fallback_pairs].
+  destruct (str_eqb (type_name imp) GLOB).
+  - rewrite !scoped_extend_pairs. cbn. tauto.
+  - destruct (mem_str (type_name imp) names); [|apply import_fallback_pairs].
+    rewrite !scoped_add_pairs. cbn. tauto.
+Qed.
+Lemma fold_step_pairs ct own imports k n : forall m,
+  In (k, n) (scoped_pairs (fold_left (used_imports_step ct own) imports m)) <->
+  In (k, n) (scoped_pairs m) \/ exists imp, In imp imports /\ In (k, n) (scoped_pairs (used_imports_step ct own [] imp)).
+Proof.
+  induction imports as [|i r IH]; intros m; cbn [fold_left].
+  - split; [now left|intros [H|(x & [] & _)]; exact H].
+  - rewrite IH, used_imports_step_pairs. split.
+    + intros [[H|H]|(x & Hx & H)]; [now left|right; exists i; split; [now left|exact H]|right; exists x; split; [now right|exact H]].
+    + intros [H|(x & [<-|Hx] & H)]; [left; now left|left; now right|right; now exists x].
+Qed.
+Lemma used_imports_pairs ct own imports k n :
+  In (k, n) (scoped_pairs (used_imports ct own imports)) <->
+  exists imp, In imp imports /\ In (k, n) (scoped_pairs (used_imports_step ct own [] imp)).
+Proof. rewrite used_imports_fold, fold_step_pairs. cbn. split; [intros [[]|H]; exact H|now right]. Qed.
+
+(* two import lists with the same elements - two iteration orders of one HashSet - import the same pairs *)
+Theorem used_imports_order_irrelevant ct own l1 l2 : (forall x, In x l1 <-> In x l2) ->
+  forall k n, In (k, n) (scoped_pairs (used_imports ct own l1)) <-> In (k, n) (scoped_pairs (used_imports ct own l2)).
+Proof.
+  intros H k n. rewrite !used_imports_pairs. split; intros (x & Hx & K); exists x; (split; [now apply H|exact K]).
 Qed.
 
 Lemma crate_types_get_some ct d names : In (d, names) ct -> exists names', crate_types_get ct d = Some names' /\ In (d, names') ct.
@@ -129,6 +185,21 @@ Proof.
   pose proof (iter_complete uc own (S (use_tree_size sub)) d n) as K. rewrite (resolve_not_alias own d A2) in K.
   apply (K A1 A3 _ _ Hp sub); [now left|exact Hl].
 Qed.
+Lemma use_globs_inv d t : use_globs d t = true -> exists sub, t = UPath d sub /\ glob_leaf sub = true.
+Proof.
+  destruct t as [id sub| | | |]; cbn [use_globs]; try discriminate.
+  intros H. apply andb_true_iff in H as [E H]. apply str_eqb_eq in E. subst id. now exists sub.
+Qed.
+(* `use d::*;`, `use d::m::*;`, `use d::{m::*, X};` yield the candidate (d, `*`) *)
+Lemma use_tree_glob own d t found :
+  crate_ok d = true -> use_globs d t = true -> parse_import uc own t = Ok found ->
+  In {| base_crate := d; type_name := GLOB |} found.
+Proof.
+  intros Hd Hu Hp. destruct (use_globs_inv d t Hu) as (sub & -> & Hl). rewrite parse_import_path in Hp.
+  destruct (crate_ok_accept d Hd) as (A1 & A2).
+  pose proof (iter_glob_complete uc own (S (use_tree_size sub)) d) as K. rewrite (resolve_not_alias own d A2) in K.
+  apply (K A1 _ _ Hp sub); [now left|exact Hl].
+Qed.
 Lemma use_tree_origin own d n t found imp :
   crate_ok d = true -> n <> GLOB -> parse_import uc own t = Ok found -> In imp found -> type_name imp = n ->
   (name_leaf n t = true -> use_introduces d n t = true) -> base_crate imp = d.
@@ -153,23 +224,23 @@ Proof.
     + destruct (targets ws c n); [discriminate|]. intros [= <-]. now left.
 Qed.
 
-(* the first item of crate d whose Rust name is n is generated under the name n *)
-Lemma renamed_in_item ws d n : In n (defs_original ws d) -> renamed_in ws d n = n ->
-  exists it, In it (crate_items ws d) /\ renamed (item_id it) = n.
+(* the first type of crate d whose Rust name is n is generated under the name renamed_in gives *)
+Lemma renamed_in_item ws d n : In n (tdefs_original ws d) ->
+  exists it, In it (type_items ws d) /\ renamed (item_id it) = renamed_in ws d n.
 Proof.
-  unfold defs_original, renamed_in. intros H E. apply in_map_iff in H as (it0 & E0 & H0).
-  destruct (find (fun it => str_eqb (original (item_id it)) n) (crate_items ws d)) as [it|] eqn:F.
+  unfold tdefs_original, renamed_in. intros H. apply in_map_iff in H as (it0 & E0 & H0).
+  destruct (find (fun it => str_eqb (original (item_id it)) n) (type_items ws d)) as [it|] eqn:F.
   - apply find_some in F as [Hin _]. now exists it.
   - exfalso. pose proof (find_none _ _ F it0 H0) as K. cbn in K. rewrite E0, str_eqb_refl in K. discriminate.
 Qed.
 
 (* the domain of the completeness theorem and the finding classes are disjoint *)
-Lemma dom_excludes_known ws mapped s c d n : dom_C14 ws mapped s c d n = true -> known_C14 ws s c d n = None.
+Lemma dom_excludes_known ws mapped s c d n : dom_C14 ws mapped s c d n = true -> known_C14 ws mapped s c d n = None.
 Proof.
-  unfold dom_C14, known_C14. intros Hd.
+  unfold dom_C14, known_C14. destruct (dom_glob mapped s d); [reflexivity|]. rewrite orb_false_r. unfold dom_named. intros Hd.
   apply andb_true_iff in Hd as [Hd _]. apply andb_true_iff in Hd as [Hd _]. apply andb_true_iff in Hd as [Hd _].
   apply andb_true_iff in Hd as [Hd _]. apply andb_true_iff in Hd as [Hd D4]. apply andb_true_iff in Hd as [Hd D3].
-  apply andb_true_iff in Hd as [D1 _]. rewrite D3, D4, D1. reflexivity.
+  rewrite D3, D4. reflexivity.
 Qed.
 
 (* ====================================================================================== *)
@@ -192,7 +263,7 @@ Let cs := multi_crates ho_crate arrivals.
 Lemma all_types_nodup : NoDup (map fst (all_types cs)).
 Proof. unfold all_types. rewrite map_map. cbn [fst]. apply multi_crates_nodup. Qed.
 
-(* a name in the type table of crate k is the generated name of an annotated item of a source file of crate k *)
+(* a name in the type table of crate k is the generated name of an annotated TYPE of a source file of crate k *)
 Lemma all_types_defined k names n : In (k, names) (all_types cs) -> In n names -> defines infos k n = true.
 Proof.
   intros Hk Hn. unfold all_types in Hk. apply in_map_iff in Hk as ([k' pdk] & E & Hin). cbn [fst snd] in E.
@@ -200,22 +271,22 @@ Proof.
   destruct (multi_crates_entry ho_crate arrivals _ _ Hin) as (pds & rn & <- & _ & ->).
   apply entry_type_names in Hn as (pdm & Hpdm & Hn). apply in_of_crate in Hpdm.
   destruct (arrival_entry uc T ign ho_file ws arrivals k pdm HW Hpdm) as (e & He & Fe & P).
-  apply (parse_file_tn_ok _ _ _ _ _ P) in Hn as (it & Hit & <-).
-  unfold defines, defs_renamed. apply mem_str_in. apply in_map_iff. exists it. split; [reflexivity|].
-  apply crate_items_in. now exists e, (core pdm).
+  apply (parse_file_tn_ok _ _ _ _ _ P) in Hn as (it & Hit & Ty & <-).
+  unfold defines, tdefs_renamed, type_items. apply mem_str_in. apply in_map_iff. exists it. split; [reflexivity|].
+  apply filter_In. split; [|exact Ty]. apply crate_items_in. now exists e, (core pdm).
 Qed.
 
-(* every annotated item of a source file of crate d has its generated name in the type table of d *)
-Lemma defined_all_types d it : In it (crate_items infos d) ->
+(* every annotated type of a source file of crate d has its generated name in the type table of d *)
+Lemma defined_all_types d it : In it (type_items infos d) ->
   exists names, In (d, names) (all_types cs) /\ In (renamed (item_id it)) names.
 Proof.
-  intros H. apply crate_items_in in H as (e & pd0 & He & Fe & P & Hit).
+  intros H. apply filter_In in H as [H Ty]. apply crate_items_in in H as (e & pd0 & He & Fe & P & Hit).
   destruct (entry_arrival uc T ign ho_file ws arrivals e d pd0 HW He Fe P) as (pdm & _ & Hin & -> & _).
   destruct (multi_crates_has ho_crate arrivals d pdm Hin) as (pdd & Hd).
   exists (p_type_names pdd). split; [unfold all_types; apply in_map_iff; now exists (d, pdd)|].
   destruct (multi_crates_entry ho_crate arrivals _ _ Hd) as (pds & rn & <- & _ & ->).
   apply entry_type_names. exists pdm. split; [now apply in_of_crate|].
-  apply (parse_file_tn_ok _ _ _ _ _ P). now exists it.
+  apply (parse_file_tn_ok _ _ _ _ _ P). exists it. split; [exact Hit|]. split; [exact Ty|reflexivity].
 Qed.
 
 Theorem imports_sound_spec c pd : (forall l x, In x (hc l) -> In x l) ->
@@ -237,59 +308,75 @@ Proof.
   intros Hc Hv Hd. unfold judge_crate in Hv.
   apply in_flat_map in Hv as (s & Hs & Hv). destruct (in_crate c s) eqn:IC; [|destruct Hv].
   apply in_flat_map in Hv as (n & Hn & Hv).
-  destruct (mem_str n (defs_original infos c)) eqn:DO; [destruct Hv|].
+  destruct (mem_str n (tdefs_original infos c)) eqn:DO; [destruct Hv|].
   destruct (referenced_crate infos s c n) as [d|] eqn:RC; [|destruct Hv].
   destruct Hv as [<-|[]]. cbn [rv_dom rv_imported] in *.
-  unfold dom_C14 in Hd.
-  apply andb_true_iff in Hd as [Hd D8]. apply andb_true_iff in Hd as [Hd D7]. apply andb_true_iff in Hd as [Hd D6].
-  apply andb_true_iff in Hd as [Hd D5]. apply andb_true_iff in Hd as [Hd D4]. apply andb_true_iff in Hd as [Hd D3].
-  apply andb_true_iff in Hd as [D1 D2]. apply str_eqb_eq in D3. apply negb_true_iff in D7, D8.
-  destruct (crate_ok_accept uc Huc d D5) as (Ad & Aal). destruct (type_ok_accept uc Huc n D6) as (An & Ag).
   (* the source file *)
   unfold infos, c14_infos in Hs. apply in_map_iff in Hs as (e & <- & He).
   unfold in_crate in IC. cbn [si_path c14_info] in IC. rewrite <- find_crate_name_spec in IC.
   destruct (find_crate_name (we_path e)) as [c'|] eqn:Fe; [|discriminate]. apply str_eqb_eq in IC. subst c'.
   unfold file_uses in Hn. apply (proj1 (dedup14_in _ _)) in Hn. apply filter_In in Hn as [Hn _]. apply in_flat_map in Hn as (it & Hit & Hm).
+  (* crate d, the generated name g of the target and the type table of d *)
+  apply referenced_crate_in in RC. unfold targets in RC. apply filter_In in RC as [_ RC]. apply andb_true_iff in RC as [Hdc Hdo].
+  apply negb_true_iff in Hdc. apply str_eqb_neq in Hdc. apply mem_str_in in Hdo.
+  destruct (renamed_in_item infos d n Hdo) as (itd & Hitd & Ern).
+  destruct (defined_all_types d itd Hitd) as (names & Hnames & Hnn). rewrite Ern in Hnn.
+  pose proof (crate_types_get_oracle hc (all_types cs) d names Hhc all_types_nodup Hnames) as G.
+  fold infos in Hd |- *. set (g := renamed_in infos d n) in *.
+  (* the arrival of the file and the import set of crate c *)
   cbn [si_items si_file c14_info] in *.
   destruct (parse_file uc (we_tstr e) T (we_file e)) as [[pd0|]| |] eqn:P; try destruct Hit.
   destruct (entry_arrival uc T ign ho_file ws arrivals e c pd0 HW He Fe P) as (pdm & pd1 & Harr & -> & C1 & R1 & FC1 & FC2 & FC3).
-  set (target := {| base_crate := d; type_name := n |}).
-  (* the candidate is collected *)
-  assert (Ht : In target (p_imports pd1)).
-  { unfold introduces in D1. apply orb_true_iff in D1 as [D1|D1]; apply existsb_exists in D1 as (x & Hx & Hi).
-    - destruct (FC1 x Hx) as (found & Hf & Hall). apply Hall.
-      + exact (use_tree_intro uc Huc c d n x found D5 D6 Hi Hf).
-      + unfold not_ignored. cbn [type_name target]. now rewrite D7.
-    - apply (FC2 x target Hx). now apply path_candidate_intro. }
-  (* and it is the only candidate for that name *)
-  assert (Hu : forall imp, In imp (p_imports pd1) -> type_name imp = n -> imp = target).
-  { intros imp Hi Hnm. assert (K : base_crate imp = d).
-    { unfold unambiguous in D2. apply andb_true_iff in D2 as [U1 U2]. rewrite forallb_forall in U1, U2.
-      destruct (FC3 imp Hi) as [(t & found & Ht' & Hf & Hin)|(p & Hp & Hcand)].
-      - apply (use_tree_origin uc Huc c d n t found imp D5 Ag Hf Hin Hnm). intros Hl. specialize (U1 t Ht'). now rewrite Hl in U1.
-      - destruct (path_candidate_inv uc c ign p imp Hcand) as (Pm & Pb). rewrite Hnm in Pm, Pb.
-        specialize (U2 p Hp). rewrite Pm in U2. cbn [implb] in U2. rewrite (Pb d U2). now apply resolve_not_alias. }
-    destruct imp as [b tn]. cbn [base_crate type_name] in *. subst. reflexivity. }
-  (* it survives reconcile_referenced_types: n is referenced and is not a name of the file *)
-  assert (Hm1 : In target (p_imports pdm)).
-  { rewrite R1. apply rrt_keeps with (n := n); auto.
-    - rewrite (all_references_core uc pd1 (core pdm)) by (now rewrite C1). now apply (mentions_refs uc (core pdm) it n).
-    - change (p_type_names pd1) with (p_type_names (core pd1)). rewrite C1. intros Hl.
-      apply (parse_file_tn_ok _ _ _ _ _ P) in Hl as (it' & Hit' & Er). apply mem_str_notin in D8. apply D8.
-      apply in_map_iff. now exists it'. }
-  (* through the collector into the import set of crate c *)
   destruct (multi_crates_entry ho_crate arrivals _ _ Hc) as (pds & rn & Epds & _ & ->).
-  assert (Hm2 : In target (p_imports (reconcile_crate rn c (with_imports (collect_single pds) (imports_iter ho_crate (collect_single pds)))))).
-  { apply entry_imports; [exact Hoc|]. exists pdm. split; [rewrite <- Epds; now apply in_of_crate|exact Hm1]. }
-  (* crate d and its type table *)
-  apply referenced_crate_in in RC. unfold targets in RC. apply filter_In in RC as [_ RC]. apply andb_true_iff in RC as [Hdc Hdo].
-  apply negb_true_iff in Hdc. apply str_eqb_neq in Hdc. apply mem_str_in in Hdo.
-  destruct (renamed_in_item infos d n Hdo D3) as (itd & Hitd & Ern).
-  destruct (defined_all_types d itd Hitd) as (names & Hnames & Hnn). rewrite Ern in Hnn.
-  pose proof (crate_types_get_oracle hc (all_types cs) d names Hhc all_types_nodup Hnames) as G.
-  apply existsb_exists. exists (d, n). split.
-  - unfold crate_imports. exact (used_imports_complete _ c _ d n names Hm2 Hdc G Hnn Ag).
-  - cbn [fst snd]. now rewrite D3, !str_eqb_refl.
+  assert (Hthrough : forall target, In target (p_imports pdm) ->
+            In target (p_imports (reconcile_crate rn c (with_imports (collect_single pds) (imports_iter ho_crate (collect_single pds)))))).
+  { intros target Hm1. apply entry_imports; [exact Hoc|]. exists pdm. split; [rewrite <- Epds; now apply in_of_crate|exact Hm1]. }
+  apply existsb_exists. exists (d, g). split; [|cbn [fst snd]; now rewrite !str_eqb_refl].
+  unfold dom_C14 in Hd. apply orb_true_iff in Hd as [Hd|Hd].
+  - (* (a) a named reference *)
+    unfold dom_named in Hd.
+    apply andb_true_iff in Hd as [Hd D8]. apply andb_true_iff in Hd as [Hd D7]. apply andb_true_iff in Hd as [Hd D6].
+    apply andb_true_iff in Hd as [Hd D5]. apply andb_true_iff in Hd as [Hd D4]. apply andb_true_iff in Hd as [Hd D3].
+    apply andb_true_iff in Hd as [D1 D2]. apply str_eqb_eq in D3. apply negb_true_iff in D7, D8.
+    cbn [si_items si_file c14_info] in D1, D2, D8. rewrite P in D8.
+    destruct (crate_ok_accept uc Huc d D5) as (Ad & Aal). destruct (type_ok_accept uc Huc n D6) as (An & Ag).
+    set (target := {| base_crate := d; type_name := n |}).
+    (* the candidate is collected *)
+    assert (Ht : In target (p_imports pd1)).
+    { unfold introduces in D1. apply orb_true_iff in D1 as [D1|D1]; apply existsb_exists in D1 as (x & Hx & Hi).
+      - destruct (FC1 x Hx) as (found & Hf & Hall). apply Hall.
+        + exact (use_tree_intro uc Huc c d n x found D5 D6 Hi Hf).
+        + unfold not_ignored. cbn [type_name target]. now rewrite D7.
+      - apply (FC2 x target Hx). now apply path_candidate_intro. }
+    (* and it is the only candidate for that name *)
+    assert (Hu : forall imp, In imp (p_imports pd1) -> type_name imp = n -> imp = target).
+    { intros imp Hi Hnm. assert (K : base_crate imp = d).
+      { unfold unambiguous in D2. apply andb_true_iff in D2 as [U1 U2]. rewrite forallb_forall in U1, U2.
+        destruct (FC3 imp Hi) as [(t & found & Ht' & Hf & Hin)|(p & Hp & Hcand)].
+        - apply (use_tree_origin uc Huc c d n t found imp D5 Ag Hf Hin Hnm). intros Hl. specialize (U1 t Ht'). now rewrite Hl in U1.
+        - destruct (path_candidate_inv uc c ign p imp Hcand) as (Pm & Pb). rewrite Hnm in Pm, Pb.
+          specialize (U2 p Hp). rewrite Pm in U2. cbn [implb] in U2. rewrite (Pb d U2). now apply resolve_not_alias. }
+      destruct imp as [b tn]. cbn [base_crate type_name] in *. subst. reflexivity. }
+    (* it survives reconcile_referenced_types: n is referenced and is not the name of a type of the file *)
+    assert (Hm1 : In target (p_imports pdm)).
+    { rewrite R1. apply rrt_keeps with (n := n); auto.
+      - rewrite (all_references_core uc pd1 (core pdm)) by (now rewrite C1). now apply (mentions_refs uc (core pdm) it n).
+      - change (p_type_names pd1) with (p_type_names (core pd1)). rewrite C1. intros Hl.
+        apply (tn_ok_type _ _ (parse_file_tn_ok _ _ _ _ _ P)) in Hl as (it' & Hit' & Er). apply mem_str_notin in D8. apply D8.
+        apply in_map_iff. now exists it'. }
+    unfold g. rewrite D3. unfold crate_imports.
+    refine (used_imports_complete _ c _ d n names (Hthrough target Hm1) Hdc G _ Ag). unfold g in Hnn. now rewrite D3 in Hnn.
+  - (* (b) a reference covered by a glob import of crate d *)
+    unfold dom_glob in Hd. apply andb_true_iff in Hd as [Hd G3]. apply andb_true_iff in Hd as [G1 G2]. apply negb_true_iff in G3.
+    cbn [si_file c14_info] in G1.
+    set (target := {| base_crate := d; type_name := GLOB |}).
+    assert (Ht : In target (p_imports pd1)).
+    { unfold glob_introduces in G1. apply existsb_exists in G1 as (x & Hx & Hi).
+      destruct (FC1 x Hx) as (found & Hf & Hall). apply Hall.
+      - exact (use_tree_glob uc Huc c d x found G2 Hi Hf).
+      - unfold not_ignored. cbn [type_name target]. change GLOB with GLOB14. now rewrite G3. }
+    assert (Hm1 : In target (p_imports pdm)) by (rewrite R1; now apply rrt_keeps_glob).
+    unfold crate_imports. exact (used_imports_glob_complete _ c _ d g names (Hthrough target Hm1) Hdc G Hnn).
 Qed.
 
 (* the verdict of the specification on the import list of every generated file *)
